@@ -157,6 +157,8 @@ type Ctx struct {
 	byteArrs    map[string]bool // A1 symbols holding bytes
 	frameWrites map[string]bool // heap keys written at refs that are not fresh allocations
 	atArgs      map[string]bound  // arg0.. of the call whose at-clauses are being evaluated
+	escTypes    map[string]bool  // memory keys of slice element types whose elements have their address taken in this function
+	curTags     []string         // property tags of the clause being evaluated (for contract-binding reports)
 	loopEntry   map[int]*State   // state in which a loop with clauses was entered (atentry)
 	sumFuns     map[string]string // canonical summand -> array-valued function symbol (mapsum / sumvisited)
 	freshRefs   map[string]bool
@@ -818,6 +820,7 @@ func (c *Ctx) elemIndex(off, idx string) string {
 
 // readElem reads s[i] (no bounds obligation here).
 func (c *Ctx) readElem(s *State, sv SliceV, idx string, elem types.Type) Value {
+	c.elemEscapeCheck(s, sv, idx, elem, "read of an element whose address may have been taken")
 	ls := leaves(elem)
 	var ts []string
 	for _, l := range ls {
@@ -830,6 +833,7 @@ func (c *Ctx) readElem(s *State, sv SliceV, idx string, elem types.Type) Value {
 }
 
 func (c *Ctx) writeElem(s *State, sv SliceV, idx string, elem types.Type, v Value) {
+	c.elemEscapeCheck(s, sv, idx, elem, "write to an element whose address may have been taken")
 	c.noteWrite(s, memKey(elem), sv.Ref)
 	ls := leaves(elem)
 	ts := flatten(v, elem)
@@ -845,6 +849,12 @@ func (c *Ctx) allocSlice(s *State, elem types.Type, length, capacity string, zer
 	ref := c.fresh("new", sInt)
 	s.assume(lt("0", ref))
 	c.freshRefFacts(s, ref)
+	if c.escTypes[memKey(elem)] {
+		// no element of a new array has had its address taken
+		ek := "X.esc." + memKey(elem)
+		esc := c.heapGet(s, ek, sA2)
+		c.heapSetQuiet(s, ek, sA2, store(esc, ref, "((as const (Array Int Int)) 0)"))
+	}
 	for _, l := range leaves(elem) {
 		key := memKey(elem) + l
 		m := c.heapGet(s, key, sA2)
